@@ -135,6 +135,15 @@ theorem stepAt_inactive (acc : Body) (c : Ctx) (p : List Bool) (a : Act) (t : Tr
       | nil => cases a <;> simp [stepAt, stepTask, noop]
       | cons b p => simp [stepAt]
 
+/-- the GENERATED lazy-split guard of `start_reduce::execute` is `is_right_child && parent's ref count == 2`, whatever
+`is_stolen(ed)` says: a right child splits the body exactly when its left sibling has not finished — also when
+it was NOT stolen (re-entrant bodies: the owner pops it inside a leaf body of the left sibling) -/
+theorem gen_reduce_split (ref : Nat) (st : Bool) : Generated.C06.reduceSplitsBody true ref st = true ↔ ref = 2 := by
+  cases st <;> simp [Generated.C06.reduceSplitsBody]
+
+theorem gen_reduce_split_left (ref : Nat) (st : Bool) : Generated.C06.reduceSplitsBody false ref st = false := by
+  cases st <;> simp [Generated.C06.reduceSplitsBody]
+
 theorem spawnedRight_some {p : List Bool} {a : Act} {r : Tree} {lo hi mb : Nat}
     (h : spawnedRight p a r = some (lo, hi, mb)) : p = [] ∧ a = .start ∧ r = .task lo hi mb true false := by
   unfold spawnedRight at h
@@ -237,7 +246,7 @@ theorem stepAt_inv : ∀ (t : Tree) (p : List Bool) (acc : Body) (c : Ctx) (a : 
                   subst hz0
                   simp only [WF, zid] at hwr
                   obtain ⟨hle, hmb⟩ := hwr
-                  simp only
+                  simp only [gen_reduce_split]
                   split
                   · rename_i h2
                     refine ⟨rfl, rfl, ?_, ?_, hc, by simp, by simp [cnt], by simp [active], by simp [active]⟩
